@@ -908,6 +908,9 @@ VSattach(HFILEID     f,    /* IN: file handle */
                returns NULL if error.
            */
 
+        /* a reference has 16 bits; a larger id names no vdata and must not wrap onto one */
+        if (vsid < 0 || vsid > (int32)MAX_REF)
+            HGOTO_ERROR(DFE_ARGS, FAIL);
         if (NULL == (w = vsinst(f, (uint16)vsid)))
             HGOTO_ERROR(DFE_VTAB, FAIL);
 
